@@ -60,7 +60,7 @@ for sig, rs in sorted(sigs.items()):
     status = 1
 inconclusive = rc == 99
 if inconclusive:
-    print(f"{ID} race-pass: ThreadSanitizer runtime aborted (internal CHECK) in every attempt; pass inconclusive, no alarm")
+    print(f"{ID} race-pass: the race-detector runtime aborted (internal CHECK / crash outside the code under test) in every attempt; pass inconclusive, no alarm")
 elif rc not in (0, 1, 66) and not reports:
     print(f"check {ID}: race pass ended abnormally rc={rc}, see {outlog}")
     status = max(status, 3)
